@@ -117,6 +117,7 @@ func floors(r *ev.Run) {
 		}
 	}
 	f("calls", 20000, 500000)
+	f("e2e.pool-refreshes", 100, 1000)
 	f("call.init.accepted", 1500, 50000)
 	f("call.init.refused", 100, 3000)
 	f("call.transfer.accepted", 2000, 50000)
